@@ -32,7 +32,8 @@ Record ag_cfg := {
   ag_pipefail : bool;       (* the script sets -o pipefail *)
   ag_checks : bool;         (* `if process.returncode: raise RuntimeError` *)
   ag_finally : bool;        (* the run's temp directory is removed in a finally block *)
-  ag_grammar_ctx : bool }.  (* the grammar temp file lives in a with-block *)
+  ag_grammar_ctx : bool;    (* the grammar temp file lives in a with-block *)
+  ag_joined : bool }.       (* the error of a failing run is raised by segment() once ALL the runs are done (fix 49fc37e) *)
 
 (* does a run raise RuntimeError? the other stages (cat, gzip) succeed *)
 Definition ag_run_raises (c : ag_cfg) (h : how) : bool :=
@@ -65,7 +66,8 @@ Definition ag_left_behind (c : ag_cfg) (hs : list how) : list tmp :=
 Record dp_cfg := {
   dp_checks : bool;         (* `if process.returncode: raise RuntimeError` *)
   dp_tmp_ctx : bool;        (* the output file lives in a with-block *)
-  dp_threads : bool }.      (* joblib.Parallel(..., backend="threading"): a failing fold does not kill the others *)
+  dp_threads : bool;        (* joblib.Parallel(..., backend="threading"): a failing fold does not kill the others *)
+  dp_joined : bool }.       (* the error of a failing fold is raised by segment() once ALL the folds are done (fix 49fc37e) *)
 
 Definition popen_returncode (h : how) : Z :=
   match h with HOk => 0 | HExit n => n mod 256 | HSignal s => - s end.
@@ -77,7 +79,7 @@ Definition dp_segment_outcome (c : dp_cfg) (hs : list how) : outcome :=
 
 Definition dp_left_behind (c : dp_cfg) (hs : list how) : list nat :=
   if dp_tmp_ctx c then [] else started {| ag_before := 0; ag_after := 0; ag_pipefail := true;
-                                          ag_checks := dp_checks c; ag_finally := true; ag_grammar_ctx := true |} hs 0.
+                                          ag_checks := dp_checks c; ag_finally := true; ag_grammar_ctx := true; ag_joined := true |} hs 0.
 
 (* Folds run njobs at a time. With joblib's process backend the first failing fold makes joblib kill
    its worker processes: a fold that is running at that moment never leaves its with-block, so its
@@ -85,9 +87,20 @@ Definition dp_left_behind (c : dp_cfg) (hs : list how) : list nat :=
    MAY be left (all the other ones); with threads, or one job, the with-blocks always complete. *)
 Definition dp_may_leave (c : dp_cfg) (njobs : nat) (hs : list how) : list nat :=
   if negb (dp_tmp_ctx c) then seq 0 (length hs)
-  else if dp_threads c || (njobs <=? 1) then []
+  else if (dp_threads c && dp_joined c) || (njobs <=? 1) then []
   else if existsb (dp_run_raises c) hs
        then filter (fun i => negb (dp_run_raises c (nth i hs HOk))) (seq 0 (length hs))
+       else [].
+
+(* The same question for ag, at the moment segment() raises: joblib re-raises the exception of a job AT ONCE, while
+   the sibling runs are still working in their directories (and a command exits on that error: their finally
+   blocks never run). Unless the error is kept until every run is done, every run that does not fail itself may
+   have its directory there. *)
+Definition ag_may_leave (c : ag_cfg) (njobs : nat) (hs : list how) : list nat :=
+  if negb (ag_finally c) then seq 0 (length hs)
+  else if ag_joined c || (njobs <=? 1) then []
+  else if existsb (ag_run_raises c) hs
+       then filter (fun i => negb (ag_run_raises c (nth i hs HOk))) (seq 0 (length hs))
        else [].
 
 (* ---------- theorems ---------- *)
@@ -202,16 +215,30 @@ Proof. intros c hs H. unfold dp_left_behind. now rewrite H. Qed.
 
 (* parallel folds: with the threading backend (since fix 0bab8df) nothing can be left, whatever the
    number of jobs, the fates of the folds and the schedule *)
-Theorem dp_parallel_no_temp_left : forall c njobs hs, dp_tmp_ctx c = true -> dp_threads c = true ->
+Theorem dp_parallel_no_temp_left : forall c njobs hs, dp_tmp_ctx c = true -> dp_threads c = true -> dp_joined c = true ->
   dp_may_leave c njobs hs = [].
-Proof. intros c njobs hs H1 H2. unfold dp_may_leave. now rewrite H1, H2. Qed.
+Proof. intros c njobs hs H1 H2 H3. unfold dp_may_leave. now rewrite H1, H2, H3. Qed.
+
+Theorem ag_parallel_no_temp_left : forall c njobs hs, ag_finally c = true -> ag_joined c = true ->
+  ag_may_leave c njobs hs = [].
+Proof. intros c njobs hs H1 H2. unfold ag_may_leave. now rewrite H1, H2. Qed.
+
+(* the defect repaired by 49fc37e: threads, two jobs, the first run (fold) fails at once, the error is raised at once:
+   the directory (file) of the second one, still working, is there *)
+Example ag_unjoined_may_leave :
+  ag_may_leave {| ag_before := 1; ag_after := 1; ag_pipefail := true; ag_checks := true; ag_finally := true;
+                  ag_grammar_ctx := true; ag_joined := false |} 2 [HExit 1; HOk] = [1]%nat.
+Proof. reflexivity. Qed.
+Example dp_unjoined_may_leave :
+  dp_may_leave {| dp_checks := true; dp_tmp_ctx := true; dp_threads := true; dp_joined := false |} 2 [HSignal 9; HOk; HOk] = [1; 2]%nat.
+Proof. reflexivity. Qed.
 
 Theorem dp_single_job_no_temp_left : forall c hs, dp_tmp_ctx c = true -> dp_may_leave c 1 hs = [].
 Proof. intros c hs H. unfold dp_may_leave. rewrite H. cbn. now rewrite orb_true_r. Qed.
 
 (* the defect repaired by 0bab8df: process backend, two jobs, the first fold fails, the second may stay *)
 Example dp_processes_may_leave :
-  dp_may_leave {| dp_checks := true; dp_tmp_ctx := true; dp_threads := false |} 2 [HExit 1; HOk; HOk] = [1; 2]%nat.
+  dp_may_leave {| dp_checks := true; dp_tmp_ctx := true; dp_threads := false; dp_joined := true |} 2 [HExit 1; HOk; HOk] = [1; 2]%nat.
 Proof. reflexivity. Qed.
 
 (* ---------- wire: the model's prediction for a scenario ---------- *)
